@@ -248,6 +248,11 @@ CHECKS = {
             dict(XT, kind="trace", name="rtc_undecodable", workload="rtc", n=(200, 3000), opts={"remote": 1, "undecodable": 1},
                  require={r'"m":"extra"': 40, r'"ep":2,"ev":"c_call","k":1,"m":"picky"': 10}, nontrivial=[r'"m":"(extra|picky)"']),
             dict(XT, kind="trace", name="rtc_cut", workload="rtc", n=(80, 1500), opts={"remote": 1, "cut": 1}, require={r'"ev":"fault"': 60}, nontrivial=[r'"ev":"fault"']),
+            # three connections with one client each, two of them fail one after the other: the third client must still be served
+            dict(XT, kind="trace", name="rtc_multi_cut", workload="rtc", n=(80, 1200), opts={"remote": 1, "conns": 3, "cut": 1},
+                 require={r'"ev":"fault","kind":"cut"': 150, r'"ep":4,"ev":"c_call"': 100}, nontrivial=[r'"ep":4,"ev":"c_call"']),
+            # by-value server: hanging by-value method abandoned by its caller, server must end
+            dict(XT, kind="trace", name="rtc_once", workload="rtc_once", n=(120, 2000), opts={"remote": 1}, require={r'"m":"take_hang"': 20}, nontrivial=[r'"m":"take']),
             dict(XT, kind="trace", name="rtc_oversize", workload="rtc", n=(60, 600), opts={"remote": 1, "oversize": 1}, require={r'"m":"big"': 60},
                  nontrivial=[r'"m":"big"'], max_rounds=80),
         ],
